@@ -36,11 +36,11 @@ MANIFEST = {
              "trailing period/space replacement, 1..99 clash counter; is_uppercase/to_lowercase as parameters; FnMut closure indexed by call number). Theorems for ALL valid names of any length, "
              "all closures: the result is the first accepted of 100 explicit candidates and was accepted by the last call (never a rejected candidate; panic iff 100 rejections; the truncate calls never "
              "hit the inside of a character; back-off <= 3 steps); single path component without illegal/control characters, no leading period, no trailing period/space, affixes present, stem not a "
-             "device name; length <= 255 when the first candidate is accepted or the suffix is empty and <= 257 always. MAX_LEN, NUMBER_LEN, both lists, the counter range and the wrappers' affixes are re-extracted from src/util.rs on every run and tied to the model and to the spec tables by decide-theorems (source_*). Two statements are false on the tree and recorded with kernel-checked "
+             "device name; length <= 255 when the first candidate is accepted or the suffix is empty and <= 257 always. Source-level tie: tools/extract_filename_consts.py TRANSLATES user_name_to_file_name and its two wrappers statement by statement on every run (Generated/FileNameFn.lean, eight independently pinned sections: per-character loop arm by arm, reserved-name test, clip with its boundary walk, trailing period/space block, cut before the counters, counter loop incl. format width / accept_path argument / end-of-try truncation / panic, the ORDER of the blocks with the first accept_path argument, the wrappers) plus the constants and lists (Generated/FileNameConsts.lean); Props proves source_*_eq_model (function equalities, induction for the two loops) so that every theorem is about the source as it stands; an unknown statement shape pins its section (never an alarm), a known shape with other content fails its theorem. Two statements are false on the tree and recorded with kernel-checked "
              "counterexamples: the 257-byte .glif name after a clash, and the 'glyphs.' prefix eaten for layer names made of periods/spaces. Tied to the code by driving the public function on "
              "an exhaustive small-alphabet space plus boundary-directed random names and comparing result and every closure call with the compiled model; the specification predicates are "
              "evaluated on norad's own output. Container-level uniqueness/stability is claimed by the container check on top of fileName_accepted."),
     "design_ref": "5 / C07, Appendix B",
     "note": "trusted: Lean kernel, three standard axioms, harness/driver glue, Unicode case tables as parameters (values sent by the harness per character); container-level part of C07 lives with the C06 state machine",
-    "technique": "Lean 4 theorems (induction over names, closed form of the candidates, first-accepted characterisation) + exhaustive/boundary-directed correspondence incl. closure call traces",
+    "technique": "Lean 4 theorems (induction over names, closed form of the candidates, first-accepted characterisation) + statement-by-statement source translator with source_*_eq_model function equalities + exhaustive/boundary-directed correspondence incl. closure call traces",
 }
